@@ -100,6 +100,13 @@ class SubPool(TaskPool):
     def extra_prop(self) -> int:
         """An extra read-only property."""
         return 42
+    def blank_doc(self, flag: bool = False) -> None:
+        """ """
+    def no_doc(self):
+        return None
+    @property
+    def bare_prop(self):
+        return 1
     def _hidden(self) -> None:
         """Not public."""
 '''
@@ -138,6 +145,18 @@ class CtlWorld:
                 out.append(name)
         return sorted(out)
 
+    def member_doc(self, dashed_name):
+        """First docstring line of a public method / read-only property (what its help is expected to show)."""
+        m = getattr(type(self.pool), dashed_name.replace("-", "_"), None)
+        if isinstance(m, property):
+            if m.fset is not None:
+                return ""
+            m = m.fget
+        d = inspect.getdoc(m) if m is not None else None
+        if not d or not d.strip():
+            return ""
+        return d.strip().split("\n", 1)[0].strip()
+
     def nonpublic_members(self):
         return sorted(n for n, m in inspect.getmembers(type(self.pool))
                       if n.startswith("_") and not n.startswith("__") and (inspect.isfunction(m) or isinstance(m, property)))
@@ -170,11 +189,14 @@ class CtlWorld:
         usage = ""
         if text.startswith("usage: "):
             usage = text[7:].split()[0] if len(text) > 7 and text[7:].split() else ""
+        doc = st["unanswered"][0][2] if (st["writes"] > 1 and st["unanswered"]) else ""
+        squeeze = lambda x: "".join(x.split())      # help text is wrapped to the terminal width
         self.ev("write", s=s, k=st["writes"], text=text, nl=data.endswith(b"\n") and data.count(b"\n") >= 1,
-                usage=usage, hashelp=("-h, --help" in text), invalid=(": error:" in text))
+                usage=usage, hashelp=("-h, --help" in text), invalid=(": error:" in text),
+                hasdoc=bool(doc) and squeeze(doc) in squeeze(text))
         # bookkeeping for commands whose method waits: pair the reply with the twin's result once both exist
         if st["writes"] > 1 and st["unanswered"]:
-            k, tw = st["unanswered"].pop(0)
+            k, tw, _doc = st["unanswered"].pop(0)
             if tw is not None:
                 self.await_pairs.append({"s": s, "k": k, "text": text, "tw": tw})
 
@@ -212,12 +234,13 @@ class CtlWorld:
             elif twk == "converr":
                 kind = "converr"
         blank = text.strip() == ""
+        doc = self.member_doc(cmd) if cls == "help" else ""
         if blank:
             st["over"] = True
         if not blank:
-            st["unanswered"].append((st["lines"], tw))
+            st["unanswered"].append((st["lines"], tw, doc))
         self.ev("send", s=s, k=st["lines"], text=text, cls=cls, cmd=cmd, ref=ref, blank=blank, twin=norm(twin_res), twk=twk,
-                twinkind=kind, hascall=call is not None, ser=ser)
+                twinkind=kind, hascall=call is not None, ser=ser, twi=(tw if tw is not None else -1), doc=doc)
         st["reader"].feed_data(text.encode() + b"\n")
 
     def eof(self, s):
